@@ -206,16 +206,24 @@ func r20_2(c *RC) {
 		c.Anchor("appctl.ClientProfileToMultiURLs / URLToClientProfile")
 		return
 	}
-	wk := constStringArgs(p, wr, "net/url.Values).Add", 1)
-	rk := constStringArgs(p, rd, "net/url.Values).Get", 1)
-	// q["port"] style lookups
-	instrs(rd, func(_ *ssa.BasicBlock, _ int, in ssa.Instruction) {
-		if lk, ok := in.(*ssa.Lookup); ok {
-			if k, ok := lk.Index.(*ssa.Const); ok && k.Value != nil && k.Value.Kind() == constant.String && strings.HasSuffix(lk.X.Type().String(), "url.Values") {
-				rk = append(rk, constant.StringVal(k.Value))
+	// (either side may delegate part of the query handling to helpers)
+	var wk, rk []string
+	for _, f := range withHelpers(p, wr, 2) {
+		wk = append(wk, constStringArgs(p, f, "net/url.Values).Add", 1)...)
+	}
+	for _, f := range withHelpers(p, rd, 2) {
+		rk = append(rk, constStringArgs(p, f, "net/url.Values).Get", 1)...)
+		// q["port"] style lookups
+		instrs(f, func(_ *ssa.BasicBlock, _ int, in ssa.Instruction) {
+			if lk, ok := in.(*ssa.Lookup); ok {
+				if k, ok := lk.Index.(*ssa.Const); ok && k.Value != nil && k.Value.Kind() == constant.String && strings.HasSuffix(lk.X.Type().String(), "url.Values") {
+					rk = append(rk, constant.StringVal(k.Value))
+				}
 			}
-		}
-	})
+		})
+	}
+	sort.Strings(wk)
+	wk = uniq(wk)
 	sort.Strings(rk)
 	rk = uniq(rk)
 	doc := []string{"handshake-mode", "mtu", "multiplexing", "port", "profile", "protocol", "traffic-pattern"}
@@ -378,15 +386,22 @@ func r20_3(c *RC) {
 				}
 			})
 			if hp == nil {
-				c.Bad(key, call.Pos(), "StoreServerConfig writes the file without HashUserPasswords on every path")
-				return
+				// the helper written out: a complete loop over config.GetUsers()
+				// that hashes every element in place, before the write
+				if why := hashLoopBeforeWrite(fn, in); why != "" {
+					c.Bad(key, call.Pos(), "StoreServerConfig writes the file without HashUserPasswords on every path (%s)", why)
+					return
+				}
 			}
-			if k, ok := hp.Common().Args[1].(*ssa.Const); !ok || k.Value.String() != "false" {
+			inPlace := hp == nil
+			if inPlace {
+				// hashed in place: nothing to store back; what is marshalled is checked below
+			} else if k, ok := hp.Common().Args[1].(*ssa.Const); !ok || k.Value.String() != "false" {
 				c.Bad(key, hp.Pos(), "HashUserPasswords is asked to keep the plaintext (keepPlaintext=%s)", describe(hp.Common().Args[1]))
 				return
 			}
-			storedBack := false
-			for _, r := range *hp.Referrers() {
+			storedBack := inPlace
+			for _, r := range hpReferrers(hp) {
 				if st, ok := r.(*ssa.Store); ok {
 					if f, base := fieldOfAddr(st.Addr); f != nil && f.Name() == "Users" && base == ssa.Value(fn.Params[0]) {
 						storedBack = true
@@ -823,4 +838,96 @@ func r20_7(c *RC) {
 			c.Bad(key, s.call.Pos(), "the configured custom nonce prefix is decoded after %v here but after a different chain elsewhere: the validator then accepts strings on which the consumer in pkg/cipher fails (and panics), so a configuration that passed validation crashes the process at its first encryption", s.chain)
 		}
 	}
+}
+
+// hashLoopBeforeWrite: fn hashes the users itself - a loop over all elements
+// of config.GetUsers() (config being fn's first parameter) that calls
+// HashUserPassword(element, false) on every iteration and cannot be left
+// early, placed before the write. Returns "" when that holds.
+func hashLoopBeforeWrite(fn *ssa.Function, write ssa.Instruction) string {
+	var call *ssa.Call
+	instrs(fn, func(_ *ssa.BasicBlock, _ int, in ssa.Instruction) {
+		if cl, ok := in.(*ssa.Call); ok && calleeName(cl) == "HashUserPassword" {
+			call = cl
+		}
+	})
+	if call == nil {
+		return "no call of HashUserPassword either"
+	}
+	if k, ok := call.Common().Args[1].(*ssa.Const); !ok || k.Value == nil || k.Value.String() != "false" {
+		return "HashUserPassword is asked to keep the plaintext"
+	}
+	// the element: users[i] with users = config.GetUsers()
+	ld, ok := call.Common().Args[0].(*ssa.UnOp)
+	if !ok {
+		return "the hashed value is not an element of the user list"
+	}
+	ia, ok := ld.X.(*ssa.IndexAddr)
+	if !ok {
+		return "the hashed value is not an element of the user list"
+	}
+	fromCfg := false
+	for _, l := range Leaves(ia.X, nil) {
+		if gc, ok := l.(*ssa.Call); ok && calleeName(gc) == "GetUsers" && len(gc.Common().Args) == 1 && gc.Common().Args[0] == ssa.Value(fn.Params[0]) {
+			fromCfg = true
+		}
+	}
+	if !fromCfg {
+		return "the list iterated is not config.GetUsers()"
+	}
+	var phi *ssa.Phi
+	switch x := ia.Index.(type) {
+	case *ssa.Phi:
+		phi = x
+	case *ssa.BinOp:
+		if pp, ok := x.X.(*ssa.Phi); ok && x.Op == token.ADD {
+			phi = pp
+		}
+	}
+	if phi == nil {
+		return "the element index is not a loop variable"
+	}
+	header := phi.Block()
+	starts := false
+	for _, e := range phi.Edges {
+		if k, ok := constInt(e); ok && (k == 0 || k == -1) {
+			starts = true
+		}
+	}
+	if !starts {
+		return "the loop does not start at the first user"
+	}
+	// loop body: dominated by the header and able to come back to it
+	inLoop := map[*ssa.BasicBlock]bool{}
+	for _, b := range fn.Blocks {
+		if header.Dominates(b) && blockReach(b, nil)[header] {
+			inLoop[b] = true
+		}
+	}
+	for b := range inLoop {
+		if b == header {
+			continue
+		}
+		for _, sc := range b.Succs {
+			if !inLoop[sc] {
+				return "the loop can be left before the last user"
+			}
+		}
+	}
+	for _, pr := range header.Preds {
+		if inLoop[pr] && !call.Block().Dominates(pr) {
+			return "an iteration can skip the hashing"
+		}
+	}
+	if inLoop[write.Block()] || !header.Dominates(write.Block()) {
+		return "the loop does not come before the write on every path"
+	}
+	return ""
+}
+
+func hpReferrers(hp *ssa.Call) []ssa.Instruction {
+	if hp == nil {
+		return nil
+	}
+	return *hp.Referrers()
 }
